@@ -138,6 +138,18 @@ class C13(XsProp):
                 '%s %s insert-tag tags' % (x, k), '{ %s %s } with-tags tags' % (x, k), '%s %s insert-tag dup drop' % (x, k),
                 '%s %s insert-tag 9 "other" insert-tag %s get-tag' % (x, k, k)])
             cs.append('xs limits 3000 200 - | push %s | eval %s | stack' % (cells.fmt(v), hexsrc(prog)))
+        # the tag map stays attached when the value crosses the build-time boundary: left by a meta block, bound by `const`, or both
+        self.attach = set()
+        tagged_src = ['5 ^{ 1 "k" ^}', '"ff" ^hex', 'nil 1 "k" insert-tag', '[ 1 ] ^{ 2 "k" ^}', '1.5 ^{ 1 "k" ^}', 'true 7 "k" insert-tag',
+                      '170141183460469231731687303715884105727 ^hex', '-9223372036854775808 1 "k" insert-tag', '|ff| 2 "k" insert-tag',
+                      '{ 1 "a" } 3 "k" insert-tag', '"" 1 "k" insert-tag', '0 ^bin', '9223372036854775807 ^{ 1 "k" 2 "j" ^}', '"s" { } with-tags']
+        for e in tagged_src:
+            for probe in ('tags', '"k" get-tag', 'dup tags swap "k" get-tag'):
+                for form in ('#( %s #)', '#( %s const KK #) KK', ': w #( %s #) ; w', '#( #( %s #) #)', '#( %s const KK #) : w KK ; w', '[ #( %s #) ] 0 nth'):
+                    case = 'xs limits 3000 200 - | clone | eval %s | stack | use 1 | eval %s | stack' % (
+                        hexsrc('%s %s' % (e, probe)), hexsrc('%s %s' % (form % e, probe)))
+                    cs.append(case)
+                    self.attach.add(case)
         return cs
 
     def group_check(self, cases, impl):
@@ -161,6 +173,11 @@ class C13(XsProp):
                 tagged += 1
             ka = ra.split('(')[0]
             kb = rb.split('(')[0]
+            if c in getattr(self, 'attach', ()):
+                if ra != rb or sa != sb:
+                    fails.append(('case: %s\nat run time: %s -> %s %s\nthrough the build-time boundary: %s -> %s %s' % (
+                        c, src_of(c)[0], ra, sa, src_of(c)[1], rb, sb), 'the tag map did not stay attached to a value left by a meta block / bound by const'))
+                continue
             if ka != kb or cells.strip_text(sa) != cells.strip_text(sb):
                 w = src_of(c)[0]
                 fails.append(('case: %s\nword: %s\nuntagged-arguments: %s -> %s %s\ntagged-arguments: %s -> %s %s' % (
